@@ -20,6 +20,7 @@ pub struct C16 {
 	/// number of steps executed then
 	after_scan: BTreeMap<usize, (Vec<String>, usize, u64)>,
 	divergences: BTreeMap<usize, Vec<String>>,
+	injected_locked: BTreeSet<(usize, String)>,
 	batch: u64,
 }
 
@@ -53,6 +54,7 @@ impl C16 {
 			queue: vec![],
 			after_scan: BTreeMap::new(),
 			divergences: BTreeMap::new(),
+			injected_locked: BTreeSet::new(),
 			batch,
 		}
 	}
@@ -162,6 +164,34 @@ impl C16 {
 							w,
 							c.as_ref().to_hex(),
 							o.value
+						),
+					));
+					return v;
+				}
+			}
+		}
+		// a scan never leaves an output reserved for a transaction it has cancelled
+		for o in &snap.outputs {
+			if o.status == OutputStatus::Locked {
+				let live = snap.txs.iter().any(|t| {
+					Some(t.id) == o.tx_log_entry
+						&& t.parent_key_id == o.root_key_id
+						&& t.tx_type == grin_wallet_libwallet::TxLogEntryType::TxSent
+						&& !t.confirmed
+				});
+				let injected = self.injected_locked.contains(&(w, o.key_id.to_hex()));
+				if !live && !injected {
+					let sig = if start.is_some() && del {
+						"locked_output_of_cancelled_entry_after_partial_scan"
+					} else {
+						"locked_output_without_live_entry_after_scan"
+					};
+					v.push(run.viol(
+						"repairs_to_truth",
+						sig,
+						format!(
+							"wallet {}: after scan(start {:?}, delete_unconfirmed {}) output {} is Locked but its log entry {:?} is not a live sent transaction",
+							w, start, del, o.key_id.to_hex(), o.tx_log_entry
 						),
 					));
 					return v;
@@ -297,7 +327,7 @@ impl Prop for C16 {
 		match r {
 			Ok(_) => OpRes::Ok {
 				new_msg: None,
-				note: kind,
+				note: format!("{}:{}", kind, o.key_id.to_hex()),
 				validated: None,
 				new_wallet: None,
 			},
@@ -326,8 +356,9 @@ impl Prop for C16 {
 				}
 				// (b) stored-state divergence, scan, (c) scan again
 				let del = run.rng.chance(1, 2);
-				self.queue.push(Step::new(Op::Scan { w, start: None, del }));
-				self.queue.push(Step::new(Op::Scan { w, start: None, del }));
+				let start = if run.rng.chance(1, 5) { Some(run.rng.range(1, run.ex.world.chain.height().max(1))) } else { None };
+				self.queue.push(Step::new(Op::Scan { w, start, del }));
+				self.queue.push(Step::new(Op::Scan { w, start, del }));
 				let n = 1 + run.rng.below(3);
 				for _ in 0..n {
 					let kind = *run.rng.pick(&["delete", "spent", "locked", "stale_unconfirmed", "delete", "spent"]);
@@ -371,7 +402,13 @@ impl Prop for C16 {
 			Op::Custom { name, args } if name == "corrupt_record" => {
 				if out.ok {
 					let w = args["w"].as_u64().unwrap_or(0) as usize;
-					self.divergences.entry(w).or_default().push(out.note.clone());
+					let mut it = out.note.split(':');
+					let kind = it.next().unwrap_or("").to_owned();
+					let key = it.next().unwrap_or("").to_owned();
+					if kind == "locked" {
+						self.injected_locked.insert((w, key));
+					}
+					self.divergences.entry(w).or_default().push(kind);
 				}
 			}
 			Op::Scan { w, start, del } => {
